@@ -502,6 +502,15 @@ def step (s : St) (line : String) : St × String :=
        ({ s with se := (d, Hw.XmlTree.Elem.mk tag (scanAttrs (raw.length + 1) raw) ct []) :: s.se }, ".")
      | _, _, _, _ => ({ s with sbad := true }, "bad-op"))
   | "SX" :: _ :: w :: _ => ({ s with sskip := some w }, ".")
+  | ["SU", _, st] =>
+    let v := if s.sbad then "SMUT FAIL unparsable-line" else
+      let forest := buildElems s.se.reverse
+      if forest.any (fun x => x.1 ≠ 0) then "SMUT FAIL malformed-stream" else
+      (match Hw.XmlSide.importSide (forest.map (·.2)) {} with
+       | .reject => if st = "0" then "SMUT FAIL the-model-rejects-a-document-that-hwloc-loads" else "SMUT ok reject/" ++ st
+       | .ok _ => "SMUT ok accept/" ++ st
+       | .outside => "SMUT ok outside/" ++ st)
+    ({ s with se := [] }, v)
   | ["SJ"] => ({ s with se := [], so := {}, sr := {} }, judgeSide s)
   | ["TJ"] => ({ s with te := [], tos := [], trs := [] }, judgeTree s)
   | "CASE" :: _ => ({}, ".")
